@@ -241,7 +241,7 @@ def run_shard(spec, ctx):
                     title = rand_title(rng)
                     check_array(disp, a, nd, title, 0, ctx, noprint=rng.random() < 0.2)
                     if len(shape) == 2 and dtype != "bool":
-                        check_array(disp, a, nd, title, 1, ctx)
+                        check_array(disp, a, nd, title, 1, ctx, noprint=rng.random() < 0.3)
             ctx.cls("dims:%d" % len(shape))
         ctx.bump("allshapes", "parts_done", 1)
         return
@@ -258,7 +258,7 @@ def run_shard(spec, ctx):
         ctx.cls("dtype:" + dtype)
         check_array(disp, a, nd, title, 0, ctx, noprint=rng.random() < 0.2)
         if len(shape) == 2 and dtype != "bool" and rng.random() < 0.7:
-            check_array(disp, a, nd, title, 1, ctx)
+            check_array(disp, a, nd, title, 1, ctx, noprint=rng.random() < 0.3)
 
 
 def finalize(m, tier, results):
